@@ -74,9 +74,9 @@ def edit(rng, sf, enc, steps):
 def in_domain(sf, enc):
     from simfile.sm import SMSimfile
     if isinstance(sf, SMSimfile):
-        ok = c01.in_domain_sm(sf) and objs.scan_safe(c01.sm_params(sf))
+        ok = c01.in_domain_sm(sf) and objs.scan_safe(c01.sm_params(sf), lead_nl=len(sf) == 0)
     else:
-        ok = c02.in_domain_ssc(sf) and objs.scan_safe(c02.ssc_params(sf))
+        ok = c02.in_domain_ssc(sf) and objs.scan_safe(c02.ssc_params(sf), lead_nl=len(sf) == 0)
     if not ok: return False
     try:
         text = str(sf)
